@@ -95,6 +95,15 @@ var profiles = map[string]profile{
 			if k%2 == 0 {
 				g = multiEpoch(r, g)
 			}
+			if k%4 == 2 { // decisions held back by a slow first validator; the epoch is sealed by a block decided inside a cascade
+				g.MaxParents = len(g.Weights)
+				g.OldParent = 0.02
+				g.Partition = false
+				g.LagHeavy = true
+				g.NapProb = 0.05
+				g.SealFrames = nil
+				g.SealAtCascade = true
+			}
 			return g
 		},
 		plays: func(r *rand.Rand, k int) []PlayOpts {
@@ -252,6 +261,15 @@ var profiles = map[string]profile{
 			}
 			g.MutateVals = k%4 != 0
 			g.EpochEvents = g.EpochEvents * 2 / 3
+			if k%3 == 1 { // decisions held back by a slow first validator, then several frames decided by one call: seals inside such a cascade
+				g.MaxParents = len(g.Weights)
+				g.OldParent = 0.02
+				g.Partition = false
+				g.LagHeavy = true
+				g.NapProb = 0.05
+				g.SealFrames = nil
+				g.SealAtCascade = true
+			}
 			return g
 		},
 		plays: func(r *rand.Rand, k int) []PlayOpts {
